@@ -83,7 +83,7 @@ func c09Build(cs []tcue, styled bool) (*astisub.Subtitles, []string) {
 	}
 	snaps := make([]string, len(cs))
 	for k, c := range cs {
-		it := textItem(time.Duration(c.S), time.Duration(c.E), c.T)
+		it := decorate(textItem(time.Duration(c.S), time.Duration(c.E), c.T), k)
 		it.Index = k + 1
 		if styled && k%2 == 0 {
 			it.Style, it.Region = st, rg
